@@ -391,7 +391,7 @@ def candidates(sc):
             yield c
     # drop halves / single ops
     for ai, a in enumerate(acts):
-        ops = a.get("ops", [])
+        ops = a.get("ops") or []
         n = len(ops)
         if n > 3:
             for lo, hi in ((n // 2, n), (0, n // 2)):
@@ -404,7 +404,7 @@ def candidates(sc):
             yield c
     # remove all cuts / joins
     for ai, a in enumerate(acts):
-        for oi, o in enumerate(a.get("ops", [])):
+        for oi, o in enumerate(a.get("ops") or []):
             if o.get("cuts"):
                 c = copy.deepcopy(sc)
                 c["actors"][ai]["ops"][oi].pop("cuts")
